@@ -39,7 +39,8 @@ RULE = ("systematic: a 5-rule set with salience ties x 12 name lists (empty, onl
 
 def main(run):
     return engine_check(run, PID, ENTRIES_P, make_cases, RULE,
-                        ["duplicate names in a selection run once per occurrence (DESIGN.md appendix D)"])
+                        ["duplicate names in a selection run once per occurrence (DESIGN.md appendix D)"],
+                        after=lambda r: pool_wrappers_part(r, PID, ['ExecuteSelectedWithSpecifiedEM', 'ExecuteSelectedRules', 'ExecuteSelectedRulesWithControl', 'ExecuteSelectedRulesWithControlAsGivenSortedName', 'ExecuteSelectedRulesWithControlAndStopTag', 'ExecuteSelectedRulesWithControlAndStopTagAsGivenSortedName', 'ExecuteSelectedRulesConcurrent', 'ExecuteSelectedRulesMixModel', 'ExecuteSelectedRulesInverseMixModel', 'ExecuteSelectedNSortMConcurrent', 'ExecuteSelectedNConcurrentMSort', 'ExecuteSelectedNConcurrentMConcurrent']))
 
 
 def replay(run, data):
